@@ -26,10 +26,18 @@ pub struct Ind {
 
 pub type Pop = Vec<Ind>;
 
+/// Fingerprint of a population: every member for populations of up to 4096, beyond that the length, the first
+/// and last 64 members and every (len / 1024)-th member (the maker computes it twice per call, so a complete
+/// pass would be quadratic in the population size).
 pub fn fingerprint(pop: &Pop) -> u64 {
     let mut h: u64 = 0x9E37_79B9_7F4A_7C15 ^ pop.len() as u64;
-    for i in pop {
-        h = (h ^ i.serial).wrapping_mul(0x0000_0100_0000_01B3).rotate_left(13) ^ i.made_from;
+    let mut eat = |i: &Ind| h = (h ^ i.serial).wrapping_mul(0x0000_0100_0000_01B3).rotate_left(13) ^ i.made_from;
+    if pop.len() <= 4096 {
+        pop.iter().for_each(&mut eat);
+    } else {
+        pop[..64].iter().for_each(&mut eat);
+        pop.iter().step_by(pop.len() / 1024).for_each(&mut eat);
+        pop[pop.len() - 64..].iter().for_each(&mut eat);
     }
     h
 }
@@ -221,7 +229,11 @@ pub fn check_step(f: &StepFacts<'_>) -> (Vec<Finding>, Vec<u64>) {
         let mut sorted = words.clone();
         sorted.sort_unstable();
         let dup_within = sorted.windows(2).any(|w| w[0] == w[1]);
-        let dup_prev = words.iter().any(|w| f.previous_words.contains(w));
+        let dup_prev = {
+            let mut prev = f.previous_words.to_vec();
+            prev.sort_unstable();
+            sorted.iter().any(|w| prev.binary_search(w).is_ok())
+        };
         if dup_within || dup_prev {
             out.push(Finding {
                 clause: "each-child-made-with-its-own-live-randomness",
